@@ -131,3 +131,71 @@ Proof.
     apply runit_scale; [|exact H]. simpl. nra. }
   split; [exact HE|]. rewrite HE. apply runit_unit. exact H.
 Qed.
+
+(* ------------------------------------------------------------------ bound sets under a rotation *)
+Definition tri_in_range (n : nat) (t : tri) : Prop := (c0 t < n /\ c1 t < n /\ c2 t < n)%nat.
+
+Lemma vnth_map (f : RV -> RV) (l : list RV) i : (i < length l)%nat -> vnth r_ops (map f l) i = f (vnth r_ops l i).
+Proof.
+  intro H. unfold vnth. rewrite (nth_indep (map f l) (vzero r_ops) (f (vzero r_ops))) by (rewrite map_length; exact H).
+  apply map_nth.
+Qed.
+
+Lemma runit_rotation k0 k1 k2 a :
+  rotation r_ops k0 k1 k2 -> runit (mv r_ops k0 k1 k2 a) = mv r_ops k0 k1 k2 (runit a).
+Proof.
+  intro H. unfold runit, unitv, rlinv, rdot. rewrite (rotation_dot r_ops Rth _ _ _ _ _ H).
+  rewrite (mv_scale r_ops Rth). reflexivity.
+Qed.
+
+(* the face normal generateNormals computes from the TRANSFORMED vertices is the rotated face normal *)
+Lemma face_n_rotation k0 k1 k2 t0 (verts : list RV) (t : tri) :
+  rotation r_ops k0 k1 k2 -> tri_in_range (length verts) t ->
+  face_n r_ops runit (map (fun p => vadd r_ops (mv r_ops k0 k1 k2 p) t0) verts) t =
+  mv r_ops k0 k1 k2 (face_n r_ops runit verts t).
+Proof.
+  intros H (H0 & H1 & H2). unfold face_n.
+  rewrite !vnth_map by assumption. rewrite !(affine_sub r_ops Rth).
+  rewrite !(runit_rotation _ _ _ _ H), (rotation_cross r_ops Rth _ _ _ _ _ H), (runit_rotation _ _ _ _ H).
+  reflexivity.
+Qed.
+
+Lemma corners_in (tris : list tri) tc : In tc (corners tris) -> In (fst tc) tris.
+Proof.
+  unfold corners. intro H. apply in_flat_map in H. destruct H as (t & Ht & Hc).
+  simpl in Hc. destruct Hc as [<-|[<-|[<-|[]]]]; exact Ht.
+Qed.
+
+Lemma spec_sum_rows_ext (row1 row2 : tri -> RV) tris v :
+  (forall t, In t tris -> row1 t = row2 t) ->
+  spec_sum_rows r_ops row1 tris v = spec_sum_rows r_ops row2 tris v.
+Proof.
+  intro H. unfold spec_sum_rows. f_equal. apply map_ext_in. intros tc Hin.
+  apply H. apply filter_In in Hin. apply corners_in. apply Hin.
+Qed.
+
+(* generateNormals on a set bound under a rotation + translation: recomputed from the transformed
+   vertices, every accumulated row is the rotated row of the unbound set *)
+Lemma gen_sums_rotation k0 k1 k2 t0 (verts : list RV) (tris : list tri) v :
+  rotation r_ops k0 k1 k2 -> (forall t, In t tris -> tri_in_range (length verts) t) -> (v < length verts)%nat ->
+  vnth r_ops (gen_sums r_ops runit (add_at r_ops) (map (fun p => vadd r_ops (mv r_ops k0 k1 k2 p) t0) verts) tris) v =
+  mv r_ops k0 k1 k2 (vnth r_ops (gen_sums r_ops runit (add_at r_ops) verts tris) v).
+Proof.
+  intros H Hr Hv.
+  rewrite (gen_sums_spec r_ops Rth) by (rewrite map_length; exact Hv).
+  rewrite (gen_sums_spec r_ops Rth) by exact Hv.
+  unfold spec_sum. rewrite <- (spec_sum_rows_mv r_ops Rth).
+  apply spec_sum_rows_ext. intros t Ht. apply face_n_rotation; auto.
+Qed.
+
+Lemma gen_normals_rotation k0 k1 k2 t0 (verts : list RV) (tris : list tri) v :
+  rotation r_ops k0 k1 k2 -> (forall t, In t tris -> tri_in_range (length verts) t) -> (v < length verts)%nat ->
+  vnth r_ops (gen_normals r_ops runit (add_at r_ops) (map (fun p => vadd r_ops (mv r_ops k0 k1 k2 p) t0) verts) tris) v =
+  mv r_ops k0 k1 k2 (vnth r_ops (gen_normals r_ops runit (add_at r_ops) verts tris) v).
+Proof.
+  intros H Hr Hv. unfold gen_normals.
+  rewrite !vnth_map.
+  - rewrite (gen_sums_rotation _ _ _ _ _ _ _ H Hr Hv). apply runit_rotation. exact H.
+  - unfold gen_sums. rewrite (accumulate3_add_at_length r_ops). exact Hv.
+  - unfold gen_sums. rewrite (accumulate3_add_at_length r_ops), map_length. exact Hv.
+Qed.
